@@ -56,6 +56,8 @@ class Ranger:
                 a = strip_epochs(c.atom)
                 if a[0] == "cmp" and a[2] == e and a[3] == C(-1) and ((a[1] == "==") != c.truth):
                     return IN if self.ret_class("_contained_at_loc") in (IN, M1) else UNK
+                if a[0] == "cmp" and a[2] == e and a[3] == C(None) and ((a[1] == "is") != c.truth):
+                    return IN if self.ret_class("_contained_at_loc") in (IN, M1) else UNK  # the "absent" answer spelled None
             return self.ret_class("_contained_at_loc")
         if e[0] == "hv":
             # initial values path-sensitively (a guard such as `if idx == -1: return` refines them), updates co-inductively
@@ -84,7 +86,7 @@ class Ranger:
     def _cls(self, e, f, assume):
         k = e[0]
         if k == "c":
-            return IN if isinstance(e[1], int) and not isinstance(e[1], bool) and e[1] == 0 else (M1 if e[1] == -1 else UNK)
+            return IN if isinstance(e[1], int) and not isinstance(e[1], bool) and e[1] == 0 else (M1 if e[1] in (-1, None) else UNK)
         if k == "nary" and e[1] == "&" and MOD in e[2]:
             return IN
         if k == "bin" and e[1] == "%" and e[3] == SIZE:
@@ -241,6 +243,12 @@ def check(prog, rep, tier):
     # (c) no duplicates
     aa = prog.method(CTX, "add_alt")
     okd, seen = True, False
+    # the value the lookup answers with when the element is absent (-1 today; None is as good): the constant it returns
+    absent = {strip_epochs(p.exit[1]) for p in paths(prog, CTX, prog.method(CTX, "_contained_at_loc"))
+              if p.exit[0] == "return" and strip_epochs(p.exit[1]) in (C(-1), C(None))}
+    if len(absent) != 1:
+        raise AnalysisError(f"C04: the lookup does not have one 'absent' answer (found {sorted(map(nshow, absent))})")
+    ABSENT = next(iter(absent))
     for p in paths(prog, CTX, aa):
         adds = [e for e in p.events if e.kind == "call" and e.target is not None and e.target.src_name == "_add"]
         if not adds:
@@ -248,8 +256,9 @@ def check(prog, rep, tier):
         seen = True
         args = tuple(strip_epochs(a) for a in adds[0].args)
         guard = [c for c in p.conds[:adds[0].ncond] if strip_epochs(c.atom)[0] == "cmp" and strip_epochs(c.atom)[2][0] == "ret"
-                 and strip_epochs(c.atom)[2][1].endswith("._contained_at_loc") and strip_epochs(c.atom)[3] == C(-1)
-                 and ((strip_epochs(c.atom)[1] == "==") == c.truth) and strip_epochs(c.atom)[2][3][1:] == args]
+                 and strip_epochs(c.atom)[2][1].endswith("._contained_at_loc") and strip_epochs(c.atom)[3] == ABSENT
+                 and strip_epochs(c.atom)[1] in ("==", "!=", "is", "isnot")
+                 and ((strip_epochs(c.atom)[1] in ("==", "is")) == c.truth) and strip_epochs(c.atom)[2][3][1:] == args]
         if not guard:
             rep.bad("C04.no-duplicate", f"{CTX}.add_alt", "_add without the containment test", "an element is added without checking that it is not already stored: the stored hashes can contain duplicates", adds[0].where())
             okd = False
@@ -270,13 +279,18 @@ def check(prog, rep, tier):
     rep.rule("C04.run-emptied-clears-occupied", "removing the only element of a run clears that quotient's occupied bit, on every exit; otherwise the bit is kept", floor=1)
     cl = prog.method(CTX, "_contained_at_loc")
     okl, seen = True, False
+    counter_scheme = False
     for p in paths(prog, CTX, cl):
-        if p.exit[0] != "return" or strip_epochs(p.exit[1]) == C(-1):
+        if p.exit[0] != "return" or strip_epochs(p.exit[1]) in (C(-1), C(None)):
             continue
         seen = True
         inrun = [c for c in p.conds if c.loops and strip_epochs(c.atom)[0] == "cmp" and strip_epochs(c.atom)[1] in ("==", ">=", "!=", "<")
                  and strip_epochs(c.atom)[3] == C(2) and any(n[0] == "hv" for n in walk(c.atom))]
         still = inrun and all(((strip_epochs(c.atom)[1] in ("==", ">=")) != c.truth) for c in inrun)
+        if not inrun:
+            still = _continues_only_on_continuation(prog, cl, p)
+        else:
+            counter_scheme = True
         match = [c for c in p.conds if c.loops and c.truth and strip_epochs(c.atom)[0] == "cmp" and strip_epochs(c.atom)[1] == "=="
                  and ("p", "r") in (strip_epochs(c.atom)[2], strip_epochs(c.atom)[3])]
         if not match:
@@ -300,7 +314,7 @@ def check(prog, rep, tier):
             okl = False
             break
     # the run counter used by that test moves by +1 exactly at run starts (slots whose continuation bit is clear)
-    if okl:
+    if okl and counter_scheme:
         for p in paths(prog, CTX, cl):
             inc = [e for e in p.events if e.kind == "accum"]
             cont0 = [c for c in p.conds if c.loops and strip_epochs(c.atom)[0] == "cmp" and strip_epochs(c.atom)[3] == C(0) and strip_epochs(c.atom)[2][0] == "ret"
@@ -394,6 +408,35 @@ def check(prog, rep, tier):
         rep.bad("C04.reinsert-all", f"{CTX}.merge", "merge loop", "merge does not add every hash yielded by second.hashes()", mg.where())
     metadata_definition_rule(prog, rep)
     scan_start_rule(prog, rep)
+
+
+def _continues_only_on_continuation(prog, cl, hit_path) -> bool:
+    """the other way of staying inside the run: the scan starts at the run's first slot and steps to the next slot only when that
+    slot's continuation bit is set - then every slot it looks at belongs to the run (loop invariant, checked on every path that
+    goes round the loop)"""
+    rv = strip_epochs(hit_path.exit[1])
+    if rv[0] != "hv":
+        # a hit before the first step: the scan variable still holds its initial value, the start of the run
+        return rv[0] == "ret" and rv[1].endswith("._get_start_index")
+    name, lid = rv[1], rv[2].rstrip("+")
+    around = [p for p in paths(prog, CTX, cl) if p.exit[0] == "loop"]
+    if not around:
+        return False
+    for p in around:
+        nxt = [e for e in p.events if e.kind == "bind" and e.name == name and e.loops and e.loops[-1] == lid]
+        if not nxt:
+            return False
+        v = strip_epochs(nxt[-1].value)
+        ok = False
+        for c in p.conds[nxt[-1].ncond:]:
+            a = strip_epochs(c.atom)
+            if a[0] == "cmp" and a[1] in ("==", "!=") and a[3] == C(0) and a[2][0] == "ret" and a[2][1].endswith("Bitarray.check_bit") \
+                    and a[2][3] == (("f", SELF, "_is_continuation", 0), v) and ((a[1] == "!=") == c.truth):
+                ok = True
+        if not ok:
+            return False
+    init = [e for e in hit_path.events if e.kind == "loopinit" and e.name == name and e.lid == lid]
+    return bool(init) and strip_epochs(init[0].value)[0] == "ret" and strip_epochs(init[0].value)[1].endswith("._get_start_index")
 
 
 # --------------------------------------------------------------------------- (f) metadata bits follow their definitions
@@ -497,10 +540,27 @@ def scan_start_rule(prog, rep):
     full = ("call", ("g", "range"), (size,), ())
     PRED = ("_is_empty_element", "_is_cluster_start")
 
+    def next_form(v):
+        """v = next((i for i in range(size) if P(i)), default) -> (predicate name, default) else None"""
+        v = strip_epochs(v)
+        if v[0] == "call" and v[1] == ("g", "next") and len(v[2]) == 2 and v[2][0][0] == "comp" and len(v[2][0][3]) == 1:
+            g = v[2][0]
+            gen = g[3][0]
+            it = ("it", gen[1], full)
+            if strip_epochs(gen[2]) == full and strip_epochs(g[2]) == it and len(gen[3]) == 1:
+                for name in PRED:
+                    if canon(gen[3][0]) == canon(_pred_value(prog, name, it)):
+                        return name, v[2][1]
+        return None
+
     def searched(p, name):
         """the path shows a complete unsuccessful search for predicate `name` over range(size)"""
         for c in p.conds:
             a = strip_epochs(c.atom)
+            if a[0] == "cmp" and a[1] in ("is", "isnot") and a[3] == C(None) and ((a[1] == "is") == c.truth):
+                nf = next_form(a[2])
+                if nf is not None and nf[0] == name and nf[1] == C(None):
+                    return True  # next(<search>, None) is None: nothing satisfies the predicate
             if a[0] == "loop0" and strip_epochs(a[2]) == full and c.truth:
                 return True  # range(size) is empty: every search over it fails
             if c.loops and not c.truth:
@@ -517,14 +577,21 @@ def scan_start_rule(prog, rep):
                 if any(c.truth and canon(c.atom) == pv for c in p.conds) and (name == PRED[0] or PRED[0] not in need or searched(p, PRED[0])):
                     return True
             return False
+        nf = next_form(s_)
+        if nf is not None and nf[1] == C(None):
+            # first slot satisfying the predicate, known to exist on this path (the None default was excluded)
+            found = any(strip_epochs(c.atom)[0] == "cmp" and strip_epochs(c.atom)[1] in ("is", "isnot") and strip_epochs(c.atom)[2] == s_
+                        and strip_epochs(c.atom)[3] == C(None) and ((strip_epochs(c.atom)[1] == "isnot") == c.truth) for c in p.conds)
+            if found and (nf[0] == PRED[0] or PRED[0] not in need or searched(p, PRED[0])):
+                return True
         if s_[0] == "call" and s_[1] == ("g", "next") and len(s_[2]) == 2 and s_[2][0][0] == "comp" and len(s_[2][0][3]) == 1:
             g = s_[2][0]
             gen = g[3][0]
             it = ("it", gen[1], full)
             if strip_epochs(gen[2]) == full and strip_epochs(g[2]) == it and len(gen[3]) == 1:
                 for name in PRED:
-                    if canon(gen[3][0]) == canon(_pred_value(prog, name, it)) and (name == PRED[0] or PRED[0] not in need):
-                        return ok_start(p, s_[2][1], need - {name})
+                    if canon(gen[3][0]) == canon(_pred_value(prog, name, it)) and (name == PRED[0] or PRED[0] not in need or searched(p, PRED[0])):
+                        return ok_start(p, s_[2][1], need - {name} - ({PRED[0]} if searched(p, PRED[0]) else set()))
             return False
         # a default: acceptable only when both searches are known to have failed (no element can then be stored at all)
         return all(n_ not in need or searched(p, n_) for n_ in PRED)
@@ -559,6 +626,8 @@ def scan_start_rule(prog, rep):
                 return rest[0] if len(rest) == 1 else ("nary", "+", rest)
             return x
         s_ = unzero(s_)
+        if s_[0] == "nary" and s_[1] == "&" and len(s_[2]) == 2 and MOD in [strip_epochs(y) for y in s_[2]]:
+            s_ = unzero([y for y in s_[2] if strip_epochs(y) != MOD][0])  # masked with size-1
         if s_[0] == "bin" and s_[1] in ("%", "&") and strip_epochs(s_[3]) in (size, MOD):
             s_ = unzero(s_[2])  # reduced modulo the table size: the start itself is an element of range(size) or a constant
         seen += 1
